@@ -467,7 +467,7 @@ func (m *MsgBridgeCallClaim) GetClaimer() sdk.AccAddress {
 }
 
 func (m *MsgBridgeCallClaim) ClaimHash() []byte {
-	path := fmt.Sprintf("%d/%d/%s/%s/%s/%s/%v/%v/%s", m.BlockHeight, m.EventNonce, m.Sender, m.Refund, m.To, m.TokenContracts, m.Amounts, m.Data, m.Value.String())
+	path := fmt.Sprintf("%d/%d/%s/%s/%s/%s/%v/%v/%s/%s/%s", m.BlockHeight, m.EventNonce, m.Sender, m.Refund, m.To, m.TokenContracts, m.Amounts, m.Data, m.Value.String(), m.Memo, m.TxOrigin)
 	return tmhash.Sum([]byte(path))
 }
 
